@@ -286,6 +286,10 @@ enum Path {
     /// exchange's asset whose snapshots are stamped an hour AHEAD (each curve is in order; the streams of two
     /// venues are not merged by time)
     SummaryAssets,
+    /// as `AssetDefault` / `Position`, but a REPORT (the tear sheet's own `generate()`) is taken after every third
+    /// point as well - a long-lived generator serves periodic reports; taking one must not change any later one
+    AssetInterimReports,
+    PositionInterimReports,
 }
 
 const PATHS: [Path; 5] = [Path::Direct, Path::DirectInit, Path::AssetInit, Path::AssetDefault, Path::Position];
@@ -300,17 +304,19 @@ impl Path {
             Path::Position => "position",
             Path::PositionUnordered => "position_unordered_times",
             Path::SummaryAssets => "summary_with_a_second_asset_running_ahead",
+            Path::AssetInterimReports => "asset_with_interim_reports",
+            Path::PositionInterimReports => "position_with_interim_reports",
         }
     }
     fn parse(s: &str) -> Path {
-        *PATHS.iter().chain([Path::PositionUnordered, Path::SummaryAssets].iter()).find(|p| p.name() == s).unwrap_or_else(|| panic!("unknown path {s}"))
+        *PATHS.iter().chain([Path::PositionUnordered, Path::SummaryAssets, Path::AssetInterimReports, Path::PositionInterimReports].iter()).find(|p| p.name() == s).unwrap_or_else(|| panic!("unknown path {s}"))
     }
 }
 
 enum Sut {
     Direct { g: Option<DrawdownGenerator>, maxg: Option<MaxDrawdownGenerator>, meang: Option<MeanDrawdownGenerator>, init: bool },
-    Asset { g: Option<TearSheetAssetGenerator>, init: bool },
-    Position { g: Option<TearSheetGenerator>, prev: Decimal },
+    Asset { g: Option<TearSheetAssetGenerator>, init: bool, interim: bool },
+    Position { g: Option<TearSheetGenerator>, prev: Decimal, interim: bool },
     Summary { g: Box<TradingSummaryGenerator>, other: AssetIndex, k: i64 },
 }
 
@@ -359,9 +365,11 @@ impl Sut {
         match path {
             Path::Direct => Sut::Direct { g: None, maxg: None, meang: None, init: false },
             Path::DirectInit => Sut::Direct { g: None, maxg: None, meang: None, init: true },
-            Path::AssetInit => Sut::Asset { g: None, init: true },
-            Path::AssetDefault => Sut::Asset { g: None, init: false },
-            Path::Position | Path::PositionUnordered => Sut::Position { g: None, prev: Decimal::ZERO },
+            Path::AssetInit => Sut::Asset { g: None, init: true, interim: false },
+            Path::AssetDefault => Sut::Asset { g: None, init: false, interim: false },
+            Path::AssetInterimReports => Sut::Asset { g: None, init: false, interim: true },
+            Path::Position | Path::PositionUnordered => Sut::Position { g: None, prev: Decimal::ZERO, interim: false },
+            Path::PositionInterimReports => Sut::Position { g: None, prev: Decimal::ZERO, interim: true },
             Path::SummaryAssets => {
                 let ins = IndexedInstruments::new([vharness::fixtures::spot(ExchangeId::BinanceSpot, "btc", "usdt"), vharness::fixtures::spot(ExchangeId::Kraken, "eth", "usdt")]);
                 let state = vharness::fixtures::default_state(&ins, TradingState::Disabled);
@@ -407,7 +415,7 @@ impl Sut {
                     mean: meang.as_ref().and_then(|m| m.generate()).map(|m| (m.mean_drawdown, m.mean_drawdown_ms)),
                 }
             }
-            Sut::Asset { g, init } => {
+            Sut::Asset { g, init, interim } => {
                 match g {
                     None if *init => *g = Some(TearSheetAssetGenerator::init(&Timed::new(Balance::new(p.v, p.v - locked(p)), t(p.t)))),
                     None => {
@@ -421,6 +429,9 @@ impl Sut {
                     *g = g.as_ref().map(restored);
                 }
                 let tsg = g.as_mut().unwrap();
+                if *interim && p.t.rem_euclid(3) == 1 {
+                    let _report = tsg.generate();
+                }
                 StepObs {
                     emitted: None,
                     current: tsg.drawdown.generate().as_ref().map(DD::of),
@@ -442,7 +453,7 @@ impl Sut {
                     mean: tsg.drawdown_mean.generate().map(|m| (m.mean_drawdown, m.mean_drawdown_ms)),
                 }
             }
-            Sut::Position { g, prev } => {
+            Sut::Position { g, prev, interim } => {
                 let tsg = g.get_or_insert_with(|| TearSheetGenerator::init(t(p.t - 60_000)));
                 let position: PositionExited<QuoteAsset, InstrumentIndex> = PositionExited {
                     instrument: InstrumentIndex(0),
@@ -461,6 +472,9 @@ impl Sut {
                 assert_eq!(tsg.pnl_returns.pnl_raw, p.v, "harness: cumulative pnl must reproduce the curve");
                 if restore_now(p) {
                     *tsg = restored(tsg);
+                }
+                if *interim && p.t.rem_euclid(3) == 1 {
+                    let _report = tsg.generate(Decimal::ZERO, Daily);
                 }
                 StepObs {
                     emitted: None,
@@ -972,6 +986,10 @@ fn main() {
             if i % 3 == 0 {
                 execute(Path::SummaryAssets, class, &pts, &format!("r{w}-{i}-summary"), report, None);
             }
+            if i % 3 == 1 {
+                execute(Path::AssetInterimReports, class, &pts, &format!("r{w}-{i}-asset-interim"), report, None);
+                execute(Path::PositionInterimReports, class, &pts, &format!("r{w}-{i}-position-interim"), report, None);
+            }
             // the same curve with every second point stamped by a venue whose clock lags 90 s (never logged
             // for the offline oracle, which assumes arrival order = time order)
             if i % 4 == 0 {
@@ -993,6 +1011,8 @@ fn main() {
     if !small {
         report.require("path:position_unordered_times");
         report.require("path:summary_with_a_second_asset_running_ahead");
+        report.require("path:asset_with_interim_reports");
+        report.require("path:position_with_interim_reports");
     }
     for c in CLASSES {
         report.require(&format!("class:{c}"));
